@@ -82,7 +82,7 @@ REGISTRY = {
     },
     "C06": {
         "rules": [
-            gating.rule_gate_modes, gating.rule_rewire, gating.rule_dagger_total, gating.rule_where_order,
+            gating.rule_gate_modes, gating.rule_rewire, gating.rule_dagger_total, gating.rule_where_order, gating.rule_fresh_bond_names,
             P(optflow.rule_option_delivery, opts=("transpose", "dagger", "tags", "propagate_tags", "contract", "where"),
               modules=("quimb.tensor.gating", "quimb.tensor.tnag.core", "quimb.tensor.tn1d.core", "quimb.tensor.tn2d.core", "quimb.tensor.tensor_core"),
               want_names=lambda f: "gate" in f.name, rule="opt-deliver[gates]", floor=40,
